@@ -36,6 +36,7 @@ type PropSpec struct {
 	Assumptions []string
 	Rule        string
 	Race        bool                            // replay natively under -race
+	Lazy        bool                            // fork on symbolic branches without feasibility queries
 	WallBudget  func(tier string) time.Duration // stop starting new units after this (reported as reduced bound)
 }
 
@@ -229,6 +230,7 @@ func runCheck(prop, tier string) int {
 				solver.log = f
 			}
 			m := NewMachine(sh, solver)
+			m.lazy = spec.Lazy
 			for {
 				mu.Lock()
 				var it workItem
@@ -567,6 +569,21 @@ func runCheck(prop, tier string) int {
 		prop, tier, exploredUnits, len(units), agg.paths, agg.ok, agg.assumed, agg.undecided, agg.forks, agg.asserts, st.Queries, st.UnknownN, st.Time.Seconds(), validated, len(witnessFiles), len(cands), spurious, violations, time.Since(start).Seconds())
 	if agg.undecided > 0 {
 		fmt.Printf("undecided reasons: %v\n", undecWhy)
+	}
+	if *flagVerbose || agg.undecided > 0 {
+		var rs []*unitResult
+		for _, r := range results {
+			if r != nil {
+				rs = append(rs, r)
+			}
+		}
+		sort.Slice(rs, func(i, j int) bool { return rs[i].paths > rs[j].paths })
+		for i, r := range rs {
+			if i >= 5 {
+				break
+			}
+			fmt.Printf("  heavy unit: %d paths (%d undecided) %s\n", r.paths, r.undecided, clip(r.unit.String(), 200))
+		}
 	}
 	for _, l := range vioLines {
 		fmt.Println(l)
